@@ -131,21 +131,198 @@ where
     );
 }
 
+// ---------------------------------------------------------------------------------------------
+// the arena itself: sequences of takes against a reference model (R5)
+// ---------------------------------------------------------------------------------------------
+
+#[derive(Clone, Debug, serde::Serialize, serde::Deserialize)]
+pub struct ArenaCase {
+    pub window: usize,
+    pub misalign: usize,
+    /// each step: (kind, length) kind 0 = take_slice<u8>(len), 1 = take_vec_znx(n=len,1,1), 2 = split_at_mut(len), 3 = take_slice<i64>(len)
+    pub steps: Vec<(u8, usize)>,
+}
+
+pub fn exec_arena<B: Bk>(c: &ArenaCase, rec: &mut Rec)
+where
+    Module<B>: HalAll<B>,
+    poulpy_hal::layouts::Scratch<B>: poulpy_hal::api::TakeSlice + poulpy_hal::api::ScratchAvailable + poulpy_hal::api::ScratchFromBytes<B>,
+{
+    use poulpy_hal::api::{ScratchTakeBasic, TakeSlice};
+    let pad = 256usize;
+    let mut buf = poulpy_hal::alloc_aligned::<u8>(pad + c.window + pad + 64);
+    buf.fill(0xC5);
+    let lo = buf.as_ptr() as usize + pad + c.misalign;
+    let hi = lo + c.window;
+    let mut taken: Vec<(usize, usize)> = vec![];
+    let mut problems: Vec<String> = vec![];
+    let r = pvc_engine::guarded(|| {
+        let mut cur: &mut poulpy_hal::layouts::Scratch<B> = B::scratch_from_bytes(&mut buf[pad + c.misalign..pad + c.misalign + c.window]);
+        // reference model: cursor = next 64-aligned address >= current position; a take of L bytes needs cursor + L <= hi
+        let mut model_pos = lo;
+        for (k, &(kind, len)) in c.steps.iter().enumerate() {
+            let bytes = match kind {
+                0 | 2 => len,
+                1 | 3 => len * 8,
+                _ => unreachable!(),
+            };
+            let aligned = model_pos.next_multiple_of(64);
+            let fits = aligned + bytes <= hi;
+            let avail_model = hi.saturating_sub(aligned);
+            let avail = B::available(cur);
+            if avail != avail_model {
+                problems.push(format!("step {k}: available() = {avail}, arena model says {avail_model}"));
+            }
+            if !fits {
+                // the library must refuse (panic) rather than hand out memory past the window
+                let cur_ptr: *mut poulpy_hal::layouts::Scratch<B> = cur;
+                let refused = pvc_engine::guarded(|| {
+                    let cur2: &mut poulpy_hal::layouts::Scratch<B> = unsafe { &mut *cur_ptr };
+                    match kind {
+                        0 => {
+                            let (s, _) = cur2.take_slice::<u8>(len);
+                            (s.as_ptr() as usize, s.len())
+                        }
+                        1 => {
+                            let (v, _) = cur2.take_vec_znx(len, 1, 1);
+                            (v.data.as_ptr() as usize, v.data.len())
+                        }
+                        2 => {
+                            let (a, _) = cur2.split_at_mut(len);
+                            (a.data.as_ptr() as usize, a.data.len())
+                        }
+                        _ => {
+                            let (s, _) = cur2.take_slice::<i64>(len);
+                            (s.as_ptr() as usize, s.len() * 8)
+                        }
+                    }
+                });
+                if let Ok((p, l)) = refused {
+                    problems.push(format!("step {k}: a take of {bytes} bytes that does not fit was granted at offset {} length {l} (window {} bytes)", p as isize - lo as isize, c.window));
+                }
+                break;
+            }
+            let (p, l): (usize, usize);
+            match kind {
+                0 => {
+                    let (s, rest) = cur.take_slice::<u8>(len);
+                    (p, l) = (s.as_ptr() as usize, s.len());
+                    cur = rest;
+                }
+                1 => {
+                    let (v, rest) = cur.take_vec_znx(len, 1, 1);
+                    (p, l) = (v.data.as_ptr() as usize, v.data.len());
+                    cur = rest;
+                }
+                2 => {
+                    let (a, rest) = cur.split_at_mut(len);
+                    (p, l) = (a.data.as_ptr() as usize, a.data.len());
+                    cur = rest;
+                }
+                _ => {
+                    let (s, rest) = cur.take_slice::<i64>(len);
+                    (p, l) = (s.as_ptr() as usize, s.len() * 8);
+                    cur = rest;
+                }
+            }
+            if l != bytes {
+                problems.push(format!("step {k}: asked {bytes} bytes, got {l}"));
+            }
+            if p % 64 != 0 {
+                problems.push(format!("step {k}: slice not 64-byte aligned"));
+            }
+            if p < lo || p + l > hi {
+                problems.push(format!("step {k}: slice [{}, {}) lies outside the {}-byte window", p as isize - lo as isize, (p + l) as isize - lo as isize, c.window));
+            }
+            for (q, m) in &taken {
+                if p < q + m && *q < p + l {
+                    problems.push(format!("step {k}: slice overlaps an earlier take"));
+                }
+            }
+            if p != aligned {
+                problems.push(format!("step {k}: slice starts at offset {}, arena model says {}", p as isize - lo as isize, aligned - lo));
+            }
+            taken.push((p, l));
+            model_pos = p + l;
+        }
+        // the remainder handed back must also stay inside the window
+        let rem = B::available(cur);
+        let rp = cur.data.as_ptr() as usize;
+        if cur.data.len() > 0 && (rp < lo || rp + cur.data.len() > hi) {
+            problems.push(format!("remainder [{}, {}) lies outside the window (available() = {rem})", rp as isize - lo as isize, (rp + cur.data.len()) as isize - lo as isize));
+        }
+    });
+    rec.evals(1);
+    if let Err(p) = r {
+        rec.fail(json!({"op": "scratch_arena", "backend": B::NAME, "kind": "panic", "case": c, "panic": p}));
+    }
+    for w in problems {
+        rec.fail(json!({"op": "scratch_arena", "backend": B::NAME, "kind": "scratch_overrun", "case": c, "why": w}));
+    }
+    rec.distinct(fnv(format!("{:?}", c).as_bytes()));
+    rec.sample(|| serde_json::to_value(c).unwrap());
+}
+
+pub fn fam_arena<B: Bk>(run: &mut Run)
+where
+    Module<B>: HalAll<B>,
+    poulpy_hal::layouts::Scratch<B>: poulpy_hal::api::TakeSlice + poulpy_hal::api::ScratchAvailable + poulpy_hal::api::ScratchFromBytes<B>,
+{
+    let lens: Vec<(u8, usize)> = vec![(0, 1), (0, 3), (0, 24), (0, 56), (0, 64), (0, 72), (0, 100), (1, 1), (1, 3), (1, 8), (2, 40), (2, 64), (3, 5), (3, 9)];
+    let depth = run.tier.pick(3usize, 4usize);
+    let mut cs = vec![];
+    for window in [64usize, 128, 192, 256, 320] {
+        for misalign in [0usize, 8, 24, 56] {
+            // all sequences up to `depth`
+            let mut stack: Vec<Vec<(u8, usize)>> = vec![vec![]];
+            while let Some(seq) = stack.pop() {
+                if !seq.is_empty() {
+                    cs.push(ArenaCase { window, misalign, steps: seq.clone() });
+                }
+                if seq.len() < depth {
+                    // thorough: full alphabet at every level; quick: full alphabet for the first two levels, a 5-letter one after
+                    let alpha: &[(u8, usize)] = if seq.len() >= 2 && !run.tier.is_thorough() { &lens[..5] } else { &lens[..] };
+                    for l in alpha {
+                        let mut s2 = seq.clone();
+                        s2.push(*l);
+                        stack.push(s2);
+                    }
+                }
+            }
+        }
+    }
+    run.family(
+        &format!("scratch_arena/{}", B::NAME),
+        "all sequences up to depth 3 (quick) / 4 (thorough) of takes (take_slice<u8>, take_slice<i64>, take_vec_znx, split_at_mut; lengths that are and are not multiples of the 64-byte alignment) from windows of 64..320 bytes at 4 base misalignments, against the arena reference model R5: every slice inside the window, aligned, disjoint, at the model's offset; available() equals the model; a take that does not fit is refused",
+        cs,
+        |c, rec| exec_arena::<B>(c, rec),
+    );
+}
+
 pub fn run_hal(run: &mut Run) {
     for_backends!(fam_v(run));
     for_backends!(fam_d(run));
+    fam_arena::<crate::be::FFT64Ref>(run);
+    fam_arena::<crate::be::NTT120Ref>(run);
+    if crate::be::host_has_avx() {
+        fam_arena::<crate::be::FFT64Avx>(run);
+        fam_arena::<crate::be::NTT120Avx>(run);
+    }
 }
 
 pub fn replay(run: &mut Run, d: &Value) -> bool {
     let backend = d["backend"].as_str().unwrap_or("").to_string();
     let fam = d["family"].as_str().unwrap_or("").to_string();
     let seed = d["seed"].as_u64().unwrap_or(0);
-    if !fam.starts_with("hal_") {
+    if !fam.starts_with("hal_") && !fam.starts_with("scratch_arena") {
         return false;
     }
     macro_rules! go {
         ($B:ty) => {{
-            if fam.starts_with("hal_coefficient_scratch") {
+            if fam.starts_with("scratch_arena") {
+                let c: ArenaCase = serde_json::from_value(d["case"].clone()).unwrap();
+                run.single(&fam, "replay", |rec| exec_arena::<$B>(&c, rec));
+            } else if fam.starts_with("hal_coefficient_scratch") {
                 let c: VCase = serde_json::from_value(d["case"].clone()).unwrap();
                 run.single(&fam, "replay", |rec| exec_v::<$B>(&c, seed, rec));
             } else {
